@@ -94,6 +94,36 @@ def _real_pool(rep, tier, rng):
             else:
                 rep.add(key, "violation", "pooled-vs-sequential", f"pool size {size}: pooled entry differs from sequential parse_single "
                         f"(exception {getattr(e.exception, 'name', None)} vs {getattr(seq.exception, 'name', None)}, {len(e.asts)} vs {len(seq.asts)} trees)")
+    # calls with MANY entries (any batching / chunking of the work list must not lose or duplicate entries): tiny generated behaviours
+    from lark import Lark
+    oracle = Lark(corpus.grammar_text(), start="fbody", parser="earley")
+    for n, size in ((257, 4), (300, 16), (513, 3)) if tier == "quick" else ((257, 4), (300, 16), (383, 2), (513, 3), (640, 16), (769, 5), (1025, 8)):
+        beh = {}
+        for i in range(n):
+            beh[f"many_{i}"] = ["{ RdV = RsV + " + str(i) + "; }"] if i % 41 != 7 else ["{ RdV = RsV + " + str(i) + " }"]
+        saved = P.Pool
+        P.Pool = functools.partial(multiprocessing.Pool, size)
+        try:
+            res = P.Parser.parse(beh)
+        finally:
+            P.Pool = saved
+        n_items += 1
+        key = f"many:{n}@pool{size}"
+        missing = [k for k in beh if k not in res]
+        extra = [k for k in res if k not in beh]
+        wrong = []
+        for k, parts in beh.items():
+            e = res.get(k)
+            if e is None:
+                continue
+            broken = parts[0].endswith(" }") and not parts[0].endswith("; }")
+            if (e.exception is not None) != broken or (not broken and (len(e.asts) != 1 or e.asts[0] != oracle.parse(parts[0]))) or list(e.behaviors) != parts:
+                wrong.append(k)
+        if missing or extra or wrong:
+            rep.add(key, "violation", "entries", f"one call with {n} behaviours on a pool of {size}: {len(res)} entries returned, missing {missing[:3]} "
+                    f"(+{max(0, len(missing) - 3)}), unexpected {extra[:3]}, wrong {wrong[:3]}")
+        else:
+            rep.add(key, "ok")
     return n_items
 
 
@@ -104,6 +134,7 @@ def run(tier):
     res = chrun.run_harness(HARNESS, 600 if thorough else 200, thorough=thorough)
     nconf = chrun.report(rep, HARNESS, res, "C18")
     n_items = _real_pool(rep, tier, rng)
+    rep.coverage["many_entries"] = "one Parser.parse call with 257 / 300 / 513 (thorough: up to 1025) tiny behaviours on pools of 2..16 workers: every name present once, own tree"
     rep.coverage.update(
         explanation="CrossHair on the real Parser.parse / parse_single under environment stubs (Pool.imap by its documented contract, Lark "
                     "raising an arbitrary exception class for behaviours marked broken, tqdm/Conf/open in memory): for every choice of "
